@@ -998,7 +998,7 @@ def check_bbox_candidates(ck, facts):
 
         def accept(node, callee, this_loc):
             return callee.rsplit("::", 1)[-1] in ("push_back", "emplace_back") and this_loc is not None and this_loc.root == "P0"
-        px = PredEx([facts], opaque=model, accept=accept)
+        px = PredEx([facts], opaque=model, accept=accept, elem_root="BOX")
         try:
             px.run(f)
             atoms = px.atoms()
